@@ -114,7 +114,19 @@ Definition helper_model (c : list tclass * list nat * list (str * value) * cfgda
                                 values.append([n, ['ok', t.value]])
                             except Exception as e:
                                 values.append([n, ['error', type(e).__name__]])
-                        return dict(values=values)
+                        # forcing / resetting what was mocked and recomputing the real tasks: the mocks keep their values
+                        mocks_live = {id(m): m for t in tasks.values() for m in t.input_tasks.values()
+                                      if type(m).__name__ == 'MockTask'}
+                        after = []
+                        for k, m in enumerate(mocks_live.values()):
+                            (m.force if k % 2 == 0 else m.reset_data)()
+                        for n, t in tasks.items():
+                            try:
+                                t.force()
+                                after.append([n, ['ok', t.value]])
+                            except Exception as e:
+                                after.append([n, ['error', f'{type(e).__name__}: {e}'[:100]]])
+                        return dict(values=values, after_force=after)
                     except CONSTRUCTION_ERRORS as e:
                         return dict(error=type(e).__name__, text=str(e)[:150])
                 made = []
@@ -174,6 +186,11 @@ Definition helper_model (c : list tclass * list nat * list (str * value) * cfgda
             if r[0] == 'ok' and isinstance(r[1], dict) and isinstance(real, dict) and r[1].get('h') != real.get('h'):
                 return (f'{n}: parameter objects that take part in the chain (ChainObject) were initialised {r[1].get("h")} in '
                         f'the helper and {real.get("h")} in the real chain')
+        first = {n: r for n, r in obs.get('raw_values') or []}
+        for n, r in obs.get('after_force', []):
+            if n in first and first[n][0] == 'ok' and json.dumps(r, sort_keys=True) != json.dumps(first[n], sort_keys=True):
+                return (f'{n}: after forcing/resetting the mocked inputs and recomputing, the helper yields {json.dumps(r)[:200]} '
+                        f'instead of {json.dumps(first[n])[:200]} (a mock returns the supplied value, whatever is done to it)')
         # every use of the helper sees the upstream values handed to THAT use
         for tag, mocks in (('again', obs['mocks']), ('again_alt', obs.get('alt_mocks', []))):
             part = obs.get(tag, {})
